@@ -12,6 +12,13 @@ TRUSTED = ('TLC 1.8.0 explicit-state exploration within the constants printed in
 CHECKS = {
     'C03': ('Dispatcher.tla + EventDeco.tla', 'TLA+ spec of EventDispatcher (small-step, re-entrant callbacks) checked by TLC; every call outcome of the dumped state graph, all short paths and random walks replayed on the real EventDispatcher; event_handler hierarchies enumerated by TLC and rebuilt with the real decorator', '6 C03'),
     'C04': ('Dispatcher.tla', 'TLA+ spec of the disabled/enabled gate and release loop with raise / disable / nested enable injected at every delivery position; TLC invariants + action properties (at-most-once, order, progress); idle-to-idle quotient of the dumped graph replayed on the real class under a watchdog', '6 C04'),
+    'C01': ('World.tla', 'TLA+ spec of the World tables (index and rows kept as in the code, ghost ownership relation) checked exhaustively by TLC over finite pools, hence for histories of every length over them; every edge of the dumped state graph, all short paths and random walks replayed on the real World comparing every query after every step', '6 C01'),
+    'C02': ('World.tla', 'lifecycle layer of the World spec (direct call when enabled, relay through the own queue when disabled, registration as listener) with TLC invariants RegisteredIffAttached / PendingConsistent / WorldListensToItself; replay compares per-call callback logs (entity, world identity), is_handler of every instance and probe deliveries', '6 C02'),
+    'C05': ('World.tla', 'deferred deletion as actions DeleteDeferred / Process with fault actions (processor raises, on_remove raises at every position); TLC action properties MarkHidesAtOnce, FreedAfterProcess, ProcessNeverFails, NoPermanentFailure; replay of all short histories mixing deferred deletion with every other operation', '6 C05'),
+    'C06': ('TypeQueries.tla', 'the class hierarchy is an input of the specification: TLC enumerates every DAG of N classes x every assignment x every query type; each is rebuilt with real Python classes and all six query methods compared', '6 C06'),
+    'C07': ('World.tla', 'processor list as a sequence with bisect-right insertion, TLC invariants SortedStable / OnePerType and action properties InsertAfterEquals / KeepsRelativeOrder; replay compares processors, get_processor, priorities, world back-link and the per-frame call log', '6 C07'),
+    'C18': ('VecMath.tla', 'exact integer/rational TLA+ reference of desper.math evaluated by TLC on enumerated operand families (algebraic laws checked as invariants on the reference); the table is replayed into the real classes with int and Fraction operands and compared exactly (tolerance only for sqrt/angle results). Partial: sampled, not proved, see DESIGN section 7', '6 C18, 7'),
+    'C19': ('World.tla + Shorthands.tla', 'every World action of the specification is executed through each access path (Controller methods, module-level shorthands, Component/ProcessorReference descriptors) and must land in the same model successor; Prototype source priority enumerated by TLC; OnUpdateProcessor relay', '6 C19'),
     'C10': ('Dispatcher.tla', 'TLA+ spec with weakly held handlers, DropRef between calls and between two callbacks of one dispatch under every iteration order; replay with real weak references and gc', '6 C10'),
 }
 
@@ -52,7 +59,7 @@ def main():
     print('MANIFEST.json: %d checks, %d not_applicable' % (len(checks), len(na)))
 
 
-LEVELS = {}
+LEVELS = {'C18': 'exploration'}
 
 if __name__ == '__main__':
     main()
